@@ -744,3 +744,134 @@ class C11(NlpCheck):
                 self.violation("restricted to T=%s, t0=%s the free-time NLP is not the fixed-time NLP plus T>=0: %d fixed rows missing, %d expected extra rows missing, %d unexplained rows" %
                                (cT, ct0, len(umB), len(um2), len(left2)), {"desc": dA, "x": xv, "p": pv}, {"kind": "free-twin", "what": "rows", "method": dA['method']['kind']})
                 return
+
+
+def var_map(b):
+    """for every opti.x entry: (phys name, column, row, factor) of the physical quantity it carries"""
+    import casadi as ca
+    mp = {}
+    x = b.opti.x
+    for name, e in b.phys_exprs.items():
+        if name not in ('X', 'U', 'V', 'Vc', 'Vcp', 'T', 't0', 't0l', 'Tl', 'Xi', 'Xc', 'Zc'):
+            continue
+        J = ca.Function('J', [x, b.opti.p] + ([ca.vertcat(*[ca.vec(s) for s in b.free])] if b.free else []), [ca.jacobian(ca.vec(e), x)], {'allow_free': True})
+        if J.has_free():
+            continue
+        args = [ca.DM.zeros(x.numel()), ca.DM.ones(b.opti.p.numel())] + ([ca.DM.zeros(sum(s.numel() for s in b.free))] if b.free else [])
+        Jv = ca.DM(J(*args)).full()
+        r, c = b.phys_shapes[name]
+        for row in range(Jv.shape[0]):
+            nzs = [j for j in range(Jv.shape[1]) if Jv[row, j] != 0]
+            if len(nzs) == 1 and nzs[0] not in mp:
+                mp[nzs[0]] = (name, row // r, row % r, Jv[row, nzs[0]])
+    return mp
+
+
+@register
+class C14(NlpCheck):
+    pid = "C14"
+    slices = ["scaled-nlp", "scaled-vs-unscaled", "layout-is-diag-scale"]
+    tags = None
+    whole = True
+    want_f = True
+    profiles = [
+        ("scaled-nlp",
+         {'methods': ALLM + [('ss', 'euler')], 'grids': FIXED_GRIDS + ['free', 'uniform_locT'], 'horizon': ['num', 'freeT', 'param'],
+          'obj_kinds': ['at_tf', 'integral', 'sum'], 'ncons': (1, 3), 'scale_prob': 0.8, 'scale_vars': 1.0, 'offset_prob': 0.2,
+          'inf_bounds_prob': 0.5, 'nrows': [1, 1, 2, 2, 3],
+          'features': {'dae': 0.3, 'v': 0.5, 'vc': 0.5, 'vcp': 0.4}, 'Ns': [1, 2, 3, 4], 'Ms': [1, 2, 3], 'degrees': [1, 2, 3]}, 45, 500),
+    ]
+
+    def explanation(self):
+        return ("theorems: solver variable = physical/scale (round trip); atoms of a scaled row = atoms of the unscaled row divided by the "
+                "scale; feasibility of declared rows and of dynamic rows is the same for every positive scale; objective, states and "
+                "declared rows of the model are functions of physical quantities only. correspondence: scaled NLP vs model; real rockit "
+                "twice: scaled vs unscaled problem at the same physical point (objective equal, every row equal up to its positive "
+                "scale, same sign); Jacobian of the sampled physical quantities w.r.t. solver variables is the declared scale")
+
+    def correspondence(self):
+        NlpCheck.correspondence(self)
+        self.twin_slice()
+
+    def twin_slice(self):
+        import casadi as ca
+        n = 12 if self.tier == 'quick' else 150
+        prof = {'methods': ALLM, 'grids': FIXED_GRIDS + ['uniform_locT'], 'horizon': ['num', 'freeT'], 'obj_kinds': ['at_tf', 'integral'],
+                'ncons': (1, 3), 'scale_prob': 0.8, 'scale_vars': 1.0, 'features': {'dae': 0.3, 'v': 0.5, 'vc': 0.5},
+                'inf_bounds_prob': 0.5, 'nrows': [1, 1, 2, 2, 3],
+                'Ns': [1, 2, 3], 'Ms': [1, 2], 'degrees': [1, 2, 3]}
+        for _ in range(n):
+            dA = G.gen_case(self.rng, prof)
+            dB = copy.deepcopy(dA)
+            for key in ('scale_x', 'scale_u', 'scale_der', 'scale_z', 'scale_v'):
+                dB[key] = None
+            for c in dB['cons']:
+                c.pop('scale', None)
+            try:
+                bA = B.build(dA)
+                bB = B.build(dB)
+                mapB = var_map(bB)
+                mapA = var_map(bA)
+                if len(mapB) != bB.nx_opti or bA.nx_opti != bB.nx_opti:
+                    self.notes.append("twin skipped: layout map incomplete (%d of %d)" % (len(mapB), bB.nx_opti))
+                    continue
+                xA, pv, fv = En.rand_point(self.rng, bA)
+                physA = B.eval_phys(bA, xA, pv, fv)
+                xB = [physA[mapB[i][0]][mapB[i][1]][mapB[i][2]] / Fr(mapB[i][3]) for i in range(bB.nx_opti)]
+                fA, gA, lA, uA = B.eval_nlp(bA, xA, pv)
+                fB, gB, lB, uB = B.eval_nlp(bB, xB, pv)
+            except (ZeroDivisionError, OverflowError):
+                continue
+            except Exception as e:
+                self.slice_ok["scaled-vs-unscaled"] = False
+                self.violation("scaled/unscaled twin raised %r" % (e,), {"desc": dA}, {"kind": "exception"})
+                return
+            self.record_case(dA, True, {"twin": "scaled vs unscaled", "scale_x": dA['scale_x'], "method": dA['method']})
+            self.count("scaled-unscaled-twin")
+            # layout: d phys / d solver variable = declared scale for states and controls
+            sx = dA['scale_x']
+            for i, (name, col, row, fac) in mapA.items():
+                if name == 'X' and abs(fac - sx[row]) > 1e-12:
+                    self.slice_ok["layout-is-diag-scale"] = False
+                    self.violation("d(sampled state %d)/d(solver variable) = %r, declared scale %r" % (row, fac, sx[row]), {"desc": dA}, {"kind": "layout"})
+                    return
+                if name == 'U' and dA.get('scale_u') and abs(fac - dA['scale_u'][row]) > 1e-12:
+                    self.slice_ok["layout-is-diag-scale"] = False
+                    self.violation("d(sampled control %d)/d(solver variable) = %r, declared scale %r" % (row, fac, dA['scale_u'][row]), {"desc": dA}, {"kind": "layout"})
+                    return
+            if not close(fA[0], fB[0], max(fA[1], fB[1], 1.0)):
+                self.slice_ok["scaled-vs-unscaled"] = False
+                self.violation("objective changes with scaling: %s vs %s" % (float(fA[0]), float(fB[0])), {"desc": dA, "x": xA, "p": pv}, {"kind": "scaled-twin", "what": "objective"})
+                return
+            aA = B.atoms_of_impl(gA, lA, uA)
+            aB = B.atoms_of_impl(gB, lB, uB)
+            # every scaled atom must be an unscaled atom divided by one of the declared positive scales
+            scales = set([Fr(1)])
+            for key in ('scale_x', 'scale_der', 'scale_z'):
+                for v in (dA.get(key) or []):
+                    scales.add(Fr(float(v)))
+            for c in dA['cons']:
+                for v in (c.get('scale') or []):
+                    scales.add(Fr(float(v)))
+            usedB = [False] * len(aB)
+            bad = None
+            for va, ma in aA:
+                ok = False
+                for j, (vb, mb) in enumerate(aB):
+                    if usedB[j]:
+                        continue
+                    for s_ in scales:
+                        if close(va * s_, vb, max(ma * float(s_), mb)):
+                            usedB[j] = True
+                            ok = True
+                            break
+                    if ok:
+                        break
+                if not ok:
+                    bad = va
+                    break
+            if bad is not None or not all(usedB):
+                self.slice_ok["scaled-vs-unscaled"] = False
+                self.violation("a row of the scaled problem (atom %s) is not a row of the unscaled problem divided by a declared positive scale (or rows are left over: %d)" %
+                               (None if bad is None else float(bad), usedB.count(False)), {"desc": dA, "x": xA, "p": pv}, {"kind": "scaled-twin", "what": "rows", "method": dA['method']['kind']})
+                return
